@@ -10,7 +10,10 @@ shift; [ $# -gt 0 ] && shift
 WT=/tmp/seedchk
 export CARGO_NET_OFFLINE=true CARGO_TARGET_DIR=/tmp/seedchk_target
 if [ "$MODE" = confirm ]; then
-  cd $WT && git checkout -q -- . && git clean -qfd core/tests sandbox/tests 2>/dev/null
+  # the scratch worktree lives outside /repo and /verif; it is created on demand and must be removed when done
+  # (git -C /repo worktree remove --force /tmp/seedchk; rm -rf /tmp/seedchk_target)
+  [ -d $WT ] || git -C /repo worktree add -q --detach $WT HEAD
+  cd $WT && git checkout -q --detach $(git -C /repo rev-parse HEAD) && git checkout -q -- . && git clean -qfd core/tests sandbox/tests 2>/dev/null
   DEMO=seed_demo_$$
   DST=core/tests/$DEMO.rs
   grep -q "rink_sandbox\|sandbox::" $S/demo_test.rs && DST=sandbox/tests/$DEMO.rs
